@@ -1097,8 +1097,6 @@ func (t *Tree) Compile(file string, args []string, out io.Writer) (err error) {
 			label++
 			printBegin()
 			elements := slices.Collect(n.Iterator())
-			elements[0].SetParentDetect(n.ParentDetect())
-			elements[0].SetParentMultipleKey(n.ParentMultipleKey())
 			printSave(ok)
 			for _, element := range elements[:len(elements)-1] {
 				next := label
@@ -1152,6 +1150,10 @@ func (t *Tree) Compile(file string, args []string, out io.Writer) (err error) {
 			printEnd()
 			labelLast = printLabel(ok)
 		case TypeSequence:
+			/* The switch case has already tested buffer[position] against the first
+			   characters of this sequence. Only the element that is executed first,
+			   once, at that position and that must consume may skip its own test:
+			   choices, optional parts, repetitions and lookaheads do not pass it on. */
 			elements := slices.Collect(n.Iterator())
 			elements[0].SetParentDetect(n.ParentDetect())
 			elements[0].SetParentMultipleKey(n.ParentMultipleKey())
@@ -1164,8 +1166,6 @@ func (t *Tree) Compile(file string, args []string, out io.Writer) (err error) {
 			printBegin()
 			printSave(ok)
 			element := n.Front()
-			element.SetParentDetect(n.ParentDetect())
-			element.SetParentMultipleKey(n.ParentMultipleKey())
 			compile(element, ko)
 			printRestore(ok)
 			printEnd()
@@ -1175,8 +1175,6 @@ func (t *Tree) Compile(file string, args []string, out io.Writer) (err error) {
 			printBegin()
 			printSave(ok)
 			element := n.Front()
-			element.SetParentDetect(n.ParentDetect())
-			element.SetParentMultipleKey(n.ParentMultipleKey())
 			compile(element, ok)
 			printJump(ko)
 			printLabel(ok)
@@ -1190,8 +1188,6 @@ func (t *Tree) Compile(file string, args []string, out io.Writer) (err error) {
 			printBegin()
 			printSave(qko)
 			element := n.Front()
-			element.SetParentDetect(n.ParentDetect())
-			element.SetParentMultipleKey(n.ParentMultipleKey())
 			compile(element, qko)
 			printJump(qok)
 			printLabel(qko)
@@ -1207,8 +1203,6 @@ func (t *Tree) Compile(file string, args []string, out io.Writer) (err error) {
 			printBegin()
 			printSave(out)
 			element := n.Front()
-			element.SetParentDetect(n.ParentDetect())
-			element.SetParentMultipleKey(n.ParentMultipleKey())
 			compile(element, out)
 			printJump(again)
 			printLabel(out)
